@@ -4,7 +4,7 @@
 use crate::gen::*;
 use crate::ops::Format;
 use crate::rng::Rng;
-use crate::world::WorldCfg;
+use crate::world::{Oracles, WorldCfg};
 
 pub struct Profile {
     pub property: &'static str,
@@ -34,6 +34,7 @@ fn t_c01(rng: &mut Rng, g: &mut GenCfg, w: &mut WorldCfg) {
         g.w[W_RESTART] = 2;
     }
     w.ids_every = 4;
+    w.oracles = Some(Oracles { data_search: false, ..Oracles::all() });
 }
 
 fn t_c02(rng: &mut Rng, g: &mut GenCfg, w: &mut WorldCfg) {
@@ -52,6 +53,7 @@ fn t_c02(rng: &mut Rng, g: &mut GenCfg, w: &mut WorldCfg) {
     g.pct_invalid = 0;
     g.pct_any_ref = *rng.pick(&[0, 10]);
     w.ids_every = 0;
+    w.oracles = Some(Oracles { dangling: true, ..Oracles::none() });
 }
 
 fn t_c03(rng: &mut Rng, g: &mut GenCfg, w: &mut WorldCfg) {
@@ -68,6 +70,7 @@ fn t_c03(rng: &mut Rng, g: &mut GenCfg, w: &mut WorldCfg) {
         g.w[W_RESTART] = 2;
     }
     w.ids_every = 1;
+    w.oracles = Some(Oracles { dump: true, ..Oracles::none() });
 }
 
 fn t_c04(rng: &mut Rng, g: &mut GenCfg, w: &mut WorldCfg) {
@@ -82,6 +85,7 @@ fn t_c04(rng: &mut Rng, g: &mut GenCfg, w: &mut WorldCfg) {
         g.w[W_RESTART] = 2;
     }
     w.ids_every = 0;
+    w.oracles = Some(Oracles { offsets: true, forward: true, dump: true, ..Oracles::none() });
 }
 
 fn t_c06(rng: &mut Rng, g: &mut GenCfg, w: &mut WorldCfg) {
@@ -104,6 +108,7 @@ fn t_c06(rng: &mut Rng, g: &mut GenCfg, w: &mut WorldCfg) {
     }
     w.ids_every = 0;
     w.related_every = *rng.pick(&[3, 5]);
+    w.oracles = Some(Oracles { dump: true, reverse: true, ..Oracles::none() });
 }
 
 fn t_c10(rng: &mut Rng, g: &mut GenCfg, w: &mut WorldCfg) {
@@ -122,6 +127,7 @@ fn t_c10(rng: &mut Rng, g: &mut GenCfg, w: &mut WorldCfg) {
         g.w[W_RESTART] = 2;
     }
     w.ids_every = 0;
+    w.oracles = Some(Oracles { dump: true, reverse: true, data_search: true, ..Oracles::none() });
 }
 
 fn t_c05(rng: &mut Rng, g: &mut GenCfg, w: &mut WorldCfg) {
@@ -139,6 +145,7 @@ fn t_c05(rng: &mut Rng, g: &mut GenCfg, w: &mut WorldCfg) {
     g.pct_data_id = *rng.pick(&[0, 30, 70]);
     w.io_noise = rng.chance(1, 2);
     w.ids_every = 6;
+    w.oracles = Some(Oracles { data_search: false, ..Oracles::all() });
 }
 
 fn t_c11(rng: &mut Rng, g: &mut GenCfg, w: &mut WorldCfg) {
@@ -149,6 +156,7 @@ fn t_c11(rng: &mut Rng, g: &mut GenCfg, w: &mut WorldCfg) {
     g.w[W_RESTART] = *rng.pick(&[4, 8]);
     w.io_noise = rng.chance(1, 2);
     w.ids_every = 6;
+    w.oracles = Some(Oracles::all());
 }
 
 fn t_c15(rng: &mut Rng, g: &mut GenCfg, w: &mut WorldCfg) {
@@ -158,6 +166,7 @@ fn t_c15(rng: &mut Rng, g: &mut GenCfg, w: &mut WorldCfg) {
     g.w[W_RESTART] = *rng.pick(&[3, 6]);
     w.io_noise = rng.chance(1, 2);
     w.ids_every = 6;
+    w.oracles = Some(Oracles { data_search: false, ..Oracles::all() });
 }
 
 fn t_c12(rng: &mut Rng, g: &mut GenCfg, w: &mut WorldCfg) {
@@ -181,6 +190,7 @@ fn t_c12(rng: &mut Rng, g: &mut GenCfg, w: &mut WorldCfg) {
     let mut others: Vec<usize> = all.iter().cloned().filter(|x| *x != w.milestone_interval).collect();
     rng.shuffle(&mut others);
     w.replicas = vec![(others[0], !w.shrink_to_fit), (others[1], w.shrink_to_fit)];
+    w.oracles = Some(Oracles { dump: true, ..Oracles::none() });
 }
 
 fn t_c14(rng: &mut Rng, g: &mut GenCfg, w: &mut WorldCfg) {
@@ -192,6 +202,7 @@ fn t_c14(rng: &mut Rng, g: &mut GenCfg, w: &mut WorldCfg) {
     g.pct_redraw_residue = 85;
     w.skip_residue = false;
     w.ids_every = 0;
+    w.oracles = Some(Oracles { data_search: false, ..Oracles::all() });
 }
 
 pub const STATE_RULE: &str = "one run = one seeded trace of 8-50 operations (swarm-drawn mix) executed in lock-step on the real AnnotationStore and the reference model, all oracles after every step; a run is non-trivial when it executed >= 5 successful mutations and >= 1 removal, restart or refused invalid request; distinct = distinct final model-state fingerprints among non-trivial runs";
